@@ -1088,6 +1088,12 @@ CHECKS.update({"C16": check_C16})
 
 
 # ---------------------------------------------------------------- C06 (first-order part)
+def fol_residue_tolerance(tables):
+    """see checks_prop.residue_tolerance: 1e-7 on the exactly representable grid, 1e-5 once a bound has left it"""
+    off = any(v.denominator > 1024 for t in tables for b in t.values() for v in b)
+    return F(1, 10 ** 5) if off else F(1, 10 ** 7)
+
+
 @monitor("fol_c06")
 def mon_fol_c06(sc, obs):
     """whenever infer() has converged (and no data arrived since): no node-level call of any formula changes anything and a
@@ -1111,7 +1117,8 @@ def mon_fol_c06(sc, obs):
         if t == 5:
             if converged is not None:
                 d = reads_equal(st["before"], st["after"], world)
-                if st["ret"] != 1 or st["amt"] > F(1, 10 ** 7) or reads_moved(st["before"], st["after"], world) > F(1, 10 ** 7):
+                tol = fol_residue_tolerance(st["before"])
+                if (st["ret"] != 1 and tol == F(1, 10 ** 7)) or st["amt"] > tol or reads_moved(st["before"], st["after"], world) > tol:
                     return (f"op #{st['n']}: a further infer() takes 1 step, reports zero, changes nothing", f"steps {st['ret']} amount {st['amt']} changed {d}", None)
             if st["ret"] >= 40:
                 return None
@@ -1121,7 +1128,8 @@ def mon_fol_c06(sc, obs):
             continue
         if t in (1, 2) and converged is not None:
             d = reads_equal(st["before"], st["after"], world)
-            if st["amt"] <= F(1, 10 ** 7) and reads_moved(st["before"], st["after"], world) <= F(1, 10 ** 7):
+            tol = fol_residue_tolerance(st["before"])
+            if st["amt"] <= tol and reads_moved(st["before"], st["after"], world) <= tol:
                 continue    # weighted KBs converge only asymptotically; infer() stops at <= 1e-7 (D9, outside "exactly representable")
             if d or st["amt"] != 0:
                 return (f"after infer() converged in {converged} steps, node call #{st['n']} {st['op']} changes nothing", f"amount {st['amt']}, changed {d}", None)
